@@ -926,8 +926,18 @@ class Interp:
         if not e.keys:
             return VDict()
         d = VDict()
+        spread = False
         for k, v in zip(e.keys, e.values):
+            if k is None:
+                # {**other}: the mapping is evaluated (its own obligations), the literal becomes an unconstrained value
+                if not self.sweep_mode():
+                    raise Unsupported('dict literal with ** spread')
+                self.eval(v, fr)
+                spread = True
+                continue
             d.set(self.eval(k, fr), self.eval(v, fr))
+        if spread:
+            return opaque_like(self.ctx, f'dict@{getattr(e, "lineno", "?")}')
         return d
 
     def ex_Lambda(self, e, fr):
@@ -1586,6 +1596,12 @@ class Interp:
         return self.ex_GeneratorExp(e, fr)
 
     def ex_GeneratorExp(self, e, fr):
+        if len(e.generators) == 1 and self.sweep_mode():
+            it0 = self.eval(e.generators[0].iter, fr)
+            if is_opaque(it0):
+                # a comprehension over an unconstrained value: an unconstrained collection (the element expression is not
+                # evaluated: whatever it could raise is part of the assumption recorded for the value's producer)
+                return opaque_like(self.ctx, f'comprehension@{getattr(e, "lineno", "?")}')
         if len(e.generators) == 1 and not e.generators[0].ifs:
             it = self.eval(e.generators[0].iter, fr)
             if isinstance(it, VBytes) and not isinstance(it.length(), int):
